@@ -331,7 +331,8 @@ def reset(index, rep):
     initsc = index.func(PARAMS, "Parameters.init_scenario")
     pop_set = any(isinstance(s, ast.Assign) and norm_src(s.targets[0]) == "self.POP" and "constants_inputs['POP']" in norm_src(s.value)
                   for s in walk_no_nested(initsc))
-    kw = {k.arg: norm_src(k.value) for k in call[0].keywords} if call else {}
+    from .core import bind_args as _ba14
+    kw = {k_: norm_src(v_) for k_, v_ in _ba14(call[0], index.func(UC, "UnitConversions.set_nutrition_requirements")).items()} if call else {}
     rep.check(pop_set and kw.get("population") == "self.POP" and kw.get("include_fat") == "constants_inputs['INCLUDE_FAT']"
               and kw.get("include_protein") == "constants_inputs['INCLUDE_PROTEIN']", rule, "first-round:settings-from-this-run",
               "the settings passed are not this run's POP / INCLUDE_FAT / INCLUDE_PROTEIN", loc=loc(PARAMS, nut))
